@@ -50,11 +50,29 @@ pub fn decode_all(ctx: &mut Ctx, b: &[u8]) -> Result<(Option<sta_rs::Message>, O
     if s.is_some() || a.is_some() {
         ctx.stats.probe("decoder_accepted_as_share");
     }
-    if let Some(k) = k {
+    if let Some(k) = k.as_ref() {
         // a sharks share straight from the wire goes to Sharks::recover with hostile thresholds
         for t in [0u32, 1, 2, u32::MAX] {
             let ks = vec![k.clone(), k.clone()];
             let _ = rx!(ctx, "Sharks::recover", b, star_sharks::Sharks(t).recover(&ks).is_ok());
+        }
+    }
+    // ... and the public interpolate, which does not de-duplicate: the same point twice (and twice with another
+    // value at that point) is data from other parties like any other. The point-and-values part S of a decoded
+    // ADSS share is such a share.
+    let k2 = k.clone().or_else(|| {
+        a.as_ref().and_then(|a| {
+            let w = a.to_bytes();
+            crate::models::layout::parse_share(&w).and_then(|p| star_sharks::Share::try_from(&w[p.offs[0]..p.offs[0] + p.offs[1]]).ok())
+        })
+    });
+    if let Some(k) = k2 {
+        let mut forged = k.clone();
+        if let Some(y0) = forged.y.first_mut() {
+            *y0 += star_sharks::Fp::from(1u64);
+        }
+        for coll in [vec![k.clone(), k.clone()], vec![k.clone(), forged.clone()], vec![k.clone(), forged, k.clone()]] {
+            let _ = rx!(ctx, "star_sharks::interpolate", b, star_sharks::interpolate(&coll).is_ok());
         }
     }
     Ok((m, s))
